@@ -73,7 +73,7 @@ theorem history_wf (fmt : Fmt) (ps : List Phase) (steps : List Step)
     ∀ s ∈ steps, LayoutWF s.xsz s.vars s.al s.old s.L :=
   runHistory_wf fmt ps [] 0 none steps (fun v hv => by cases hv) hlen (fun _ o ho => by cases ho) h
 
-/-! ### the header extent reported after ncmpi_open (finding F19)
+/-! ### the header extent reported after ncmpi_open (finding FB2-1)
 
   Full-strength statement: after opening any file, the reported header extent
   (ncmpi_inq_header_extent = ncp->begin_var) is at least the header size.  It is FALSE of the
